@@ -50,8 +50,14 @@ def canon : String → String
   | "diveq_f" => "div_f"
   | s => s
 
-def evalLine (fn0 tag : String) (a : Array Int) : String :=
+/-- distinct C++ integral types with the representation of a fixed-width typedef (LP64): same model type -/
+def canonTag : String → String
+  | "ll" => "i64" | "ull" => "u64"
+  | s => s
+
+def evalLine (fn0 tag0 : String) (a : Array Int) : String :=
   let fn := canon fn0
+  let tag := canonTag tag0
   let a0 := a.getD 0 0
   let a1 := a.getD 1 0
   let n := a.size
